@@ -26,7 +26,7 @@ TASK_CLASSES = {"TaskStartAt", "TaskStartAfter", "TaskEndAt", "TaskEndBefore", "
                 "ScheduleNTasksInTimeIntervals", "OptionalTaskForceSchedule", "OptionalTaskConditionSchedule",
                 "OptionalTasksDependency", "ForceScheduleNOptionalTasks"}
 RES_CLASSES = {"ResourceUnavailable", "WorkLoad", "ResourceNonDelay", "ResourceTasksDistance", "SameWorkers",
-               "DistinctWorkers"}
+               "DistinctWorkers", "ResourceInterrupted", "ResourcePeriodicallyUnavailable"}
 FOL_CLASSES = {"Not", "Or", "And", "Xor", "Implies", "IfThenElse", "ConstraintFromExpression",
                "ForceApplyNOptionalConstraints"}
 
@@ -72,6 +72,37 @@ PROPS = {
         "assumptions": ["assertions emitted for constraints by the real code are those of the model (ENC, all constr:* owners), "
                         "or logically equivalent to them on the script (z3, tier 2)"],
         "n": {"quick": 200, "thorough": 3000},
+    },
+    "C03": {
+        "theorems": ["C03_raw_sound", "C03_task_constraints", "C03_optional_constraints"],
+        "profiles": [("taskc", 0.7), ("all", 0.3)],
+        "relevant": lambda o: owner_in(o, (), TASK_CLASSES),
+        "spec": "C03",
+        "nontrivial": lambda s: sum(1 for d in s if d["op"] == "constraint") >= 2,
+        "rule": "scripts of the 'taskc' profile: every task-constraint class x lax/strict/tight x offsets {0,1,2,5} x "
+                "bounds from the boundary set {0,1,2,3,H/2,H-1,H,H+1} x interval lists (1..3, touching / overlapping) x "
+                "exact/min/max counts, over fixed / zero / variable-duration, mandatory and optional tasks, optional "
+                "constraints; non-trivial = at least two constraints; distinct = distinct script text",
+        "assumptions": ["the task-constraint formulas emitted by the real code are those of the model (ENC, owners constr:*:<task "
+                        "constraint class>) or equivalent on the script (z3)",
+                        "TasksContiguous and the upper side of ScheduleNTasksInTimeIntervals: see known findings / partial theorems"],
+        "n": {"quick": 250, "thorough": 4000},
+    },
+    "C04": {
+        "theorems": ["C04_raw_sound", "C04_resource_constraints", "workloadOne_sound", "sortNoDup_sound"],
+        "profiles": [("resc", 0.8), ("all", 0.2)],
+        "relevant": lambda o: owner_in(o, (), RES_CLASSES),
+        "spec": "C04",
+        "nontrivial": lambda s: any(d["op"] == "constraint" and d["c"][0] in
+                                    ("unavailable", "workload", "nonDelay", "distance", "sameWorkers", "distinctWorkers") for d in s),
+        "rule": "scripts of the 'resc' profile: ResourceUnavailable / WorkLoad (exact, min, max; bounds 0..len+1) / "
+                "ResourceNonDelay / ResourceTasksDistance (with and without intervals, three modes) / Same- and "
+                "DistinctWorkers on plain and cumulative workers, direct and selected assignments, declared before and "
+                "after further assignments; non-trivial = at least one resource constraint; distinct = distinct script text",
+        "assumptions": ["resource-constraint formulas emitted by the real code are those of the model (ENC) or equivalent (z3)",
+                        "ResourceInterrupted, ResourcePeriodicallyUnavailable, ResourcePeriodicallyInterrupted are not modelled "
+                        "yet: scripts with them are not generated and this part of C04 is not decided (see DESIGN.md)"],
+        "n": {"quick": 250, "thorough": 4000},
     },
     "C07": {
         "theorems": ["incLoop_spec", "C07_anytime", "C07_optimal"],
@@ -323,7 +354,7 @@ def run_chunk(args):
                 summary["nontrivial"].append(script_key(script))
             if len(summary["samples"]) < 2:
                 from harness import pslib
-                summary["samples"].append({"label": label, "script": [pslib.to_line(x) for x in script][:12]})
+                summary["samples"].append({"label": label, "script": [pslib.to_line(x) or "(solver object constructed here)" for x in script][:12]})
             if r["oth"]:
                 summary["other"] += 1
             if r.get("equiv") == "equivalent":
@@ -376,7 +407,7 @@ def run_solver_item(prop, tier, it, d, summary):
             summary["nontrivial"].append(script_key([script, cfg, ops, [a[:2] for a in answers]]))
         if len(summary["samples"]) < 2:
             summary["samples"].append({"label": label, "cfg": cfg, "ops": ops, "answers": [a[:2] for a in answers][:6],
-                                       "script": [pslib.to_line(x) for x in script][:8]})
+                                       "script": [pslib.to_line(x) or "(solver)" for x in script][:8]})
         if diffs:
             summary["broken"].append({"label": label, "script": script, "cfg": cfg, "ops": ops, "answers": answers,
                                       "diffs": diffs, "channel": "SM"})
